@@ -337,11 +337,17 @@ Definition too_long (lim : limits) (p : pstate) : bool :=
       match ctail p, c with
       | [], _ => false
       | _, CData _ => false
-      | t, CTrailers => max_field lim <? lenN t
-      | t, _ => max_line lim <? lenN t
+      | t, CTrailers => max_field lim <? tail_len chunk_tail_check_discounts_cr t
+      | t, _ => max_line lim <? tail_len chunk_tail_check_discounts_cr t
       end
   | _ => false
   end.
+
+Lemma tail_len_le d (t : bytes) : tail_len d t <= lenN t.
+Proof. unfold tail_len. destruct (d && (last t 0 =? 13)); lia. Qed.
+
+Lemma tail_len_ge d (t : bytes) : lenN t <= tail_len d t + 1.
+Proof. unfold tail_len. destruct (d && (last t 0 =? 13)); lia. Qed.
 
 Lemma feed_payload_chunked lim p c data evs : pk p = PChunked c ->
   feed_payload lim p data evs =
@@ -465,4 +471,109 @@ Proof.
                _ _ _ y _ (S (meas mu_c (ck, tlk, evk) (xk ++ y))) Hcw Hf (meas_c_fuel _ _ _ _) _ _ E ltac:(lia)).
     cbn [loop]. rewrite (cstop_fail _ _ _ _ _ _ _ _ y Hs Hc). reflexivity.
   - unfold feed_payload in H. rewrite Ek in H. discriminate.
+Qed.
+
+(* ------------------------------------------------------------------ an over-long buffered partial line *)
+(* (the repaired length check: the generated flag must be set) *)
+Lemma chunk_flag : chunk_tail_check_discounts_cr = true.
+Proof. reflexivity. Qed.
+
+Lemma tail_len_cons2 (c c2 : N) (r : bytes) : tail_len true (c :: c2 :: r) = tail_len true (c2 :: r) + 1.
+Proof.
+  unfold tail_len. cbn [andb]. change (last (c :: c2 :: r) 0) with (last (c2 :: r) 0).
+  rewrite (lenN_cons c (c2 :: r)). rewrite (lenN_cons c2 r). destruct (last (c2 :: r) 0 =? 13); lia.
+Qed.
+
+Lemma lenN_rev (l : bytes) : lenN (rev l) = lenN l.
+Proof. unfold lenN. now rewrite rev_length. Qed.
+
+(* the line that ends a buffered CRLF-less part contains that part, except a CR ending it *)
+Lemma find_crlf_aux_none_app_line : forall ct acc d l r,
+  find_crlf_aux acc ct = None -> find_crlf_aux acc (ct ++ d) = Some (l, r) ->
+  lenN acc + tail_len true ct <= lenN l.
+Proof.
+  induction ct as [|c ct IH]; intros acc d l r Hn Hs.
+  - cbn [app] in Hs. apply find_crlf_aux_shape in Hs as (m & -> & _).
+    rewrite lenN_app, lenN_rev. unfold tail_len, lenN. cbn. lia.
+  - destruct ct as [|c2 ct].
+    + cbn [app] in Hs. destruct d as [|e d]; [discriminate|]. rewrite find_crlf_aux_cons2 in Hs.
+      destruct ((c =? 13) && (e =? 10)) eqn:E.
+      * inversion Hs; subst. apply andb_true_iff in E as [E _]. apply N.eqb_eq in E. subst c.
+        rewrite lenN_rev. unfold tail_len, lenN. cbn. lia.
+      * apply find_crlf_aux_shape in Hs as (m & -> & _). rewrite lenN_app, lenN_rev, lenN_cons.
+        pose proof (tail_len_le true [c]) as H. change (lenN [c]) with 1 in H. lia.
+    + cbn [app] in Hs. rewrite find_crlf_aux_cons2 in Hn, Hs.
+      destruct ((c =? 13) && (c2 =? 10)); [discriminate|].
+      pose proof (IH _ _ _ _ Hn Hs) as H. rewrite lenN_cons in H. rewrite tail_len_cons2. lia.
+Qed.
+
+Lemma find_crlf_none_app_line ct d l r :
+  find_crlf ct = None -> find_crlf (ct ++ d) = Some (l, r) -> tail_len true ct <= lenN l.
+Proof.
+  intros Hn Hs. pose proof (find_crlf_aux_none_app_line ct [] d l r Hn Hs) as H.
+  unfold lenN in H at 1. cbn [length] in H. lia.
+Qed.
+
+Lemma tail_len_app_mono dd (ct y : bytes) : y <> [] -> tail_len dd ct <= tail_len dd (ct ++ y).
+Proof.
+  intro Hy. pose proof (tail_len_le dd ct). pose proof (tail_len_ge dd (ct ++ y)).
+  rewrite lenN_app in *. destruct y; [congruence|]. rewrite lenN_cons in *. lia.
+Qed.
+
+(* resuming on such a line: LineTooLong once its end is seen; before that a bare LF is a
+   TransferEncodingError, and otherwise the (longer) part is buffered again *)
+Lemma cstop_long lim mt c' ct' tl' e1 y :
+  wfc c' ct' -> too_long lim (mkP (PChunked c') ct' tl' mt) = true -> y <> [] ->
+  match find_crlf (ct' ++ y) with
+  | Some _ => step_c lim mt (c', tl', e1) (ct' ++ y) = inr (PRFail ELineTooLong e1)
+  | None =>
+    if has_byte 10 (ct' ++ y) then step_c lim mt (c', tl', e1) (ct' ++ y) = inr (PRFail ETransferEncoding e1)
+    else step_c lim mt (c', tl', e1) (ct' ++ y) = inr (PRNeed (mkP (PChunked c') (ct' ++ y) tl' mt) e1) /\
+         too_long lim (mkP (PChunked c') (ct' ++ y) tl' mt) = true
+  end.
+Proof.
+  intros Hw Ht Hy. unfold too_long in *. cbn [pk ctail] in *. rewrite chunk_flag in *.
+  destruct ct' as [|a r]; [discriminate|].
+  destruct c'; cbn [wfc] in Hw.
+  - destruct Hw as [Hn _]. cbn [app step_c]. change (a :: r ++ y) with ((a :: r) ++ y).
+    destruct (find_crlf ((a :: r) ++ y)) as [[line rest]|] eqn:E.
+    + pose proof (find_crlf_none_app_line _ _ _ _ Hn E) as Hl.
+      destruct (max_line lim <? lenN line) eqn:E1; [reflexivity|lia].
+    + destruct (has_byte 10 ((a :: r) ++ y)); [reflexivity|]. split; [reflexivity|].
+      pose proof (tail_len_app_mono true (a :: r) y Hy). cbn [app] in *. lia.
+  - discriminate.
+  - destruct Hw as [Hw|Hw]; [discriminate|]. inversion Hw; subst.
+    unfold tail_len, lenN in Ht. cbn in Ht. lia.
+  - destruct Hw as [Hn _]. cbn [app step_c]. change (a :: r ++ y) with ((a :: r) ++ y).
+    destruct (find_crlf ((a :: r) ++ y)) as [[line rest]|] eqn:E.
+    + pose proof (find_crlf_none_app_line _ _ _ _ Hn E) as Hl.
+      destruct (max_field lim <? lenN line) eqn:E1; [reflexivity|lia].
+    + destruct (has_byte 10 ((a :: r) ++ y)); [reflexivity|]. split; [reflexivity|].
+      pose proof (tail_len_app_mono true (a :: r) y Hy). cbn [app] in *. lia.
+Qed.
+
+Lemma feed_payload_need_long lim p x evs p' e1 y : wfp p ->
+  feed_payload lim p x evs = PRNeed p' e1 -> too_long lim p' = true -> y <> [] ->
+  match find_crlf (ctail p' ++ y) with
+  | Some _ => feed_payload lim p (x ++ y) evs = PRFail ELineTooLong e1
+  | None =>
+    if has_byte 10 (ctail p' ++ y) then feed_payload lim p (x ++ y) evs = PRFail ETransferEncoding e1
+    else exists p'', feed_payload lim p (x ++ y) evs = PRNeed p'' e1 /\ too_long lim p'' = true
+  end.
+Proof.
+  intros Hw H Ht Hy. unfold wfp in Hw. destruct (pk p) as [rem|c|] eqn:Ek.
+  - unfold feed_payload in H. rewrite Ek in H. repeat (dmH H; try discriminate). inversion H; subst. discriminate.
+  - rewrite (feed_payload_chunked _ _ _ _ _ Ek) in H.
+    destruct (too_long lim p) eqn:Et; [discriminate|].
+    pose proof (wfc_cwf _ _ (tlines p) evs Hw) as Hc.
+    pose proof (meas_c_fuel c (tlines p) evs (ctail p ++ x)) as Hf.
+    destruct (cloop_need_app _ _ _ _ _ _ _ Hc Hf H) as (c' & ct' & tl' & -> & Hwf & Hres).
+    cbn [ctail]. rewrite (feed_payload_chunked _ _ _ _ _ Ek), Et. rewrite app_assoc.
+    rewrite (Hres y _ (S (meas mu_c (c', tl', e1) (ct' ++ y))) (meas_c_fuel _ _ _ _) ltac:(lia)).
+    unfold cloop. cbn [loop].
+    pose proof (cstop_long lim (max_trailers p) c' ct' tl' e1 y Hwf Ht Hy) as Hs.
+    destruct (find_crlf (ct' ++ y)); [rewrite Hs; reflexivity|].
+    destruct (has_byte 10 (ct' ++ y)); [rewrite Hs; reflexivity|].
+    destruct Hs as [Hs Ht']. rewrite Hs. eauto.
+  - unfold feed_payload in H. rewrite Ek in H. inversion H; subst. unfold too_long in Ht. rewrite Ek in Ht. discriminate.
 Qed.
